@@ -4,6 +4,16 @@ SIM_NOTE = ("trusted base: the behavioural nRF24L01+ simulator (vlib/sim, self-t
             "driver; chip assumptions (a)-(e) of DESIGN.md 2.6")
 
 CHECKS = [
+    {"property_id": "C04", "level": "exploration",
+     "text": "one simulated radio per address, RF24Network constructed on each: the six pipe addresses of all 781 nodes are read "
+             "from the radios and compared with the reference translation, pairwise uniqueness and level sharing are checked "
+             "(exhaustive, default bytes, multicast on and off, plus drawn distinct byte sets); every ordered (source, destination) "
+             "pair is routed by real write()/update() calls - quick: first hop of all 609 180 pairs + full delivery for a sample; "
+             "thorough: full delivery of all pairs for both multicast settings - each hop compared with the reference tree path, "
+             "address and receiver set; multicast() to every level from sampled senders; drawn byte sets on drawn subtrees",
+     "design_ref": "4/C04", "note": SIM_NOTE + "; vlib/ref/netaddr.py (tree arithmetic, TMRh20 pipe_address) is the specification; "
+     "IndexedMedium offers a packet only to chips whose registers show an enabled pipe on its address",
+     "technique": "exhaustive enumeration of address pairs driven through the real API on a simulated population, differential against reference address arithmetic; Hypothesis for drawn byte sets/subtrees"},
     {"property_id": "C18", "level": "exploration",
      "text": "Hypothesis-generated histories of MAC / name / show_pa_level / pa_level / hop_channel / channel= / with-block "
              "re-entry and advertise() calls whose chunk lists are constructed around the capacity boundary; the W_TX_PAYLOAD bytes "
